@@ -653,7 +653,7 @@ pub mod into_route {
     use redirectionio::marker::StaticOrDynamic;
     use redirectionio::router::{RouteHeaderKind, RouteIp};
 
-    const PATHS: &[&str] = &["/", "/a", "/A/B", "/a b", "/caf\u{e9}", "/a/@d", "/a/@d/@l", "/x_y.z", "/a\"b", "/a<b>", "/@q/@d", "/a%20b", "/A/@x"];
+    const PATHS: &[&str] = &["/", "/a", "/A/B", "/a b", "/a+b", "/a+@d", "/caf\u{e9}", "/a/@d", "/a/@d/@l", "/x_y.z", "/a\"b", "/a<b>", "/@q/@d", "/a%20b", "/A/@x"];
     const QUERIES: &[&str] = &["", "b=1&a=2", "a=%2B&b=a+b", "k=1&k=2", "\u{e9}=1", "a", "=", "a=1&&b", "B=1&a=2", "x=@d"];
     const HOSTS: &[&str] = &["", "a.com", "A.COM", "@l.com", "shop-@d.a.com", "www.a.com", "@q.com"];
     const RANGES: &[&str] = &["10.0.0.0/8", "10.1.0.0/16", "10.1.2.3", "10.0.0.1/8", "not-a-cidr", "", "300.1.1.1/8", "10.0.0.0/33", "192.168.0.0/24", "0.0.0.0/0", "10.0.0.0/08x", "1.2.3/8"];
